@@ -1,6 +1,9 @@
 package prog
 
-import "runtime"
+import (
+	"runtime"
+	"time"
+)
 
 var ncpu = func() int {
 	n := runtime.NumCPU()
@@ -9,3 +12,11 @@ var ncpu = func() int {
 	}
 	return n
 }()
+
+// childDeadline bounds a child re-execution (C31/C33). A child needs one or two seconds of CPU;
+// the deadline is two orders of magnitude above that, so that only a genuine hang trips it.
+const childDeadline = 300 * time.Second
+
+type errChildHung struct{ dump string }
+
+func (e errChildHung) Error() string { return "child process did not finish" }
